@@ -59,6 +59,9 @@ func childMain() {
 	if h.Codec == "magic" {
 		deadline = 3 * time.Second // tiny inputs, our own streams
 	}
+	if h.DeadlineS > 0 {
+		deadline = time.Duration(h.DeadlineS) * time.Second
+	}
 	if h.Goroutines > 0 {
 		deadline *= 3
 	}
